@@ -256,7 +256,9 @@ func (c Collection) characterizeAndFlatten(nonStaticTypes map[typeCode]bool) ([]
 
 		if fm.group == staticGroup {
 			for _, in := range fm.flows[inputParams] {
-				if nonStaticTypes[in] {
+				// Unused is provided automatically in the static set whatever else
+				// provides it: an Unused parameter never makes a provider per-invocation
+				if in != unusedTypeCode && nonStaticTypes[in] {
 					cc.inputsAreStatic = false
 					fm, err = characterizeFunc(fm, cc)
 					if err != nil {
